@@ -254,42 +254,65 @@ pub const PROBE_ROOT_NODE_CAP: usize = 3_000;
 /// sum over the enumerated derivatives of (distinct sub-terms x derivative classes)
 pub const PROBE_WORK_CAP: u64 = 1_500_000;
 
-/// Sizing probe: rebuild the term in a scratch manager (never the one under observation, so the
-/// observed manager's store and cache are untouched) and enumerate its derivatives there, giving
-/// up at PROBE_CAP terms or at the first derivative with more than PROBE_NODE_CAP distinct
-/// sub-terms. Some(n): n derivatives, all small; None: heavy (or the probe failed).
-/// Searches over the whole derivative graph are only requested for terms that pass the probe:
-/// beyond it they are legitimately slow, and a clock must not be turned into an oracle.
+/// Enumerate the derivatives of `c` on manager `m`, giving up at PROBE_CAP terms, at the first
+/// derivative with more than PROBE_NODE_CAP distinct sub-terms (the root may have up to
+/// PROBE_ROOT_NODE_CAP) or when the accumulated work estimate passes PROBE_WORK_CAP.
+/// Some(n): n derivatives, all small. None: heavy.
+fn enumerate_bounded(m: &mut aws_smt_strings::regular_expressions::ReManager, c: RegLan) -> Option<usize> {
+    let mut n = 0usize;
+    let mut work = 0u64;
+    let mut it = m.iter_derivatives(c);
+    loop {
+        match it.next() {
+            None => return Some(n),
+            Some(x) => {
+                n += 1;
+                if n > PROBE_CAP {
+                    return None;
+                }
+                let x: RegLan = unsafe { &*(x as *const aws_smt_strings::regular_expressions::RE) };
+                let mut seen = std::collections::HashSet::new();
+                let size = dag_size(x, &mut seen);
+                let cap = if n == 1 { PROBE_ROOT_NODE_CAP } else { PROBE_NODE_CAP };
+                work += size as u64 * (x.num_deriv_classes() as u64 + 1);
+                if size > cap || work > PROBE_WORK_CAP {
+                    return None;
+                }
+            }
+        }
+    }
+}
+
+/// Sizing probe, first stage: rebuild the term in a scratch manager (the observed manager is not
+/// touched) and enumerate its derivatives there under the caps. A cheap filter only: the copy goes
+/// through the smart constructors again and may normalise differently from the observed term
+/// (e.g. a loop of a loop that `concat` created without flattening), so passing it proves nothing.
 pub fn sizing_probe(r: RegLan) -> Option<usize> {
     let res = crate::calls::guarded(|| {
         let mut m = aws_smt_strings::regular_expressions::ReManager::new();
         let mut memo = HashMap::new();
         let c = copy_term(r, &mut m, &mut memo);
-        let mut n = 0usize;
-        let mut work = 0u64;
-        let mut it = m.iter_derivatives(c);
-        loop {
-            match it.next() {
-                None => return Some(n),
-                Some(x) => {
-                    n += 1;
-                    if n > PROBE_CAP {
-                        return None;
-                    }
-                    let x: RegLan = unsafe { &*(x as *const aws_smt_strings::regular_expressions::RE) };
-                    let mut seen = std::collections::HashSet::new();
-                    let size = dag_size(x, &mut seen);
-                    // the root may be a large term (a character class with hundreds of pieces) as
-                    // long as its derivatives are small; total work is bounded as well
-                    let cap = if n == 1 { PROBE_ROOT_NODE_CAP } else { PROBE_NODE_CAP };
-                    work += size as u64 * (x.num_deriv_classes() as u64 + 1);
-                    if size > cap || work > PROBE_WORK_CAP {
-                        return None;
-                    }
-                }
-            }
-        }
+        enumerate_bounded(&mut m, c)
     });
+    match res {
+        Ok(x) => x,
+        Err(_) => None,
+    }
+}
+
+/// Sizing probe, second stage, on the observed manager itself: the same bounded enumeration on
+/// the very term (same normal forms, so the bound is sound for the searches that follow), after
+/// which exactly the derivative-cache entries it created are evicted again. What stays behind is
+/// what an abandoned iterator of another client leaves: the derivative terms exist in the store.
+pub fn sizing_probe_in_place(m: &mut aws_smt_strings::regular_expressions::ReManager, r: RegLan) -> Option<usize> {
+    use aws_smt_strings::character_sets::ClassId;
+    let mut before: std::collections::HashSet<(usize, ClassId)> = std::collections::HashSet::new();
+    m.verif_evict_deriv_cache(|id, cid| {
+        before.insert((id, cid));
+        true
+    });
+    let res = crate::calls::guarded(|| enumerate_bounded(m, r));
+    m.verif_evict_deriv_cache(|id, cid| before.contains(&(id, cid)));
     match res {
         Ok(x) => x,
         Err(_) => None,
